@@ -127,7 +127,15 @@ struct Sched
         if (thr[i]->st == BLOCKED_CV)
           sl.push_back((int)i);
       if (!sl.empty())
-        thr[sl[next_rand() % sl.size()]]->st = RUNNABLE; // spurious wake-up (allowed by the C++ standard)
+      {
+        int w = sl[next_rand() % sl.size()];
+        int nrun = 0;
+        for (size_t i = 0; i < thr.size(); ++i)
+          nrun += thr[i]->st == RUNNABLE;
+        thr[w]->st = RUNNABLE; // spurious wake-up (allowed by the C++ standard)
+        Event se = {w, 30, nrun, 0}; // kind 30 = spurious wake-up of thread w; obj = runnable threads before it
+        events.push_back(se);
+      }
     }
     // timed waits: a timeout may fire at any scheduling decision (5%), and must fire when nothing else can run
     {
